@@ -786,3 +786,476 @@ gproof! { fn c14_arc_f32_consistency() {
     core::mem::forget(a);
     core::mem::forget(b);
 } }
+
+// ------------------------------------------------------------------------------------------
+// C17: serde — serialisation is transparent, deserialisation yields a fresh sole owner
+// ------------------------------------------------------------------------------------------
+#[cfg(feature = "serde")]
+pub(crate) mod serde_h {
+    use crate::arc::Arc;
+    use crate::unique_arc::UniqueArc;
+    use crate::vrt;
+    use crate::vrt::{base, cnt, data};
+    use core::fmt;
+    use serde::de::{Deserialize, Deserializer, Visitor};
+    use serde::ser::{Impossible, Serialize, Serializer};
+
+    #[derive(Debug, PartialEq, Clone, Copy)]
+    pub struct E(pub u8);
+    impl fmt::Display for E {
+        fn fmt(&self, _f: &mut fmt::Formatter) -> fmt::Result {
+            Ok(())
+        }
+    }
+    impl serde::ser::StdError for E {}
+    impl serde::ser::Error for E {
+        fn custom<T: fmt::Display>(_m: T) -> Self {
+            E(255)
+        }
+    }
+    impl serde::de::Error for E {
+        fn custom<T: fmt::Display>(_m: T) -> Self {
+            E(255)
+        }
+    }
+
+    // recording serializer: carries a token (identity of THIS serializer) and a symbolic outcome
+    pub static mut REC_CALLS: usize = 0;
+    pub static mut REC_LAST: u32 = 0;
+    pub static mut REC_TOKEN: u8 = 0;
+    pub struct Rec {
+        pub token: u8,
+        pub outcome: Result<u16, E>,
+    }
+    macro_rules! other { ($($n:ident($t:ty)),*) => { $( fn $n(self, _v: $t) -> Result<u16, E> { unsafe { REC_CALLS += 100; } Err(E(254)) } )* } }
+    impl Serializer for Rec {
+        type Ok = u16;
+        type Error = E;
+        type SerializeSeq = Impossible<u16, E>;
+        type SerializeTuple = Impossible<u16, E>;
+        type SerializeTupleStruct = Impossible<u16, E>;
+        type SerializeTupleVariant = Impossible<u16, E>;
+        type SerializeMap = Impossible<u16, E>;
+        type SerializeStruct = Impossible<u16, E>;
+        type SerializeStructVariant = Impossible<u16, E>;
+        fn serialize_u32(self, v: u32) -> Result<u16, E> {
+            unsafe {
+                REC_CALLS += 1;
+                REC_LAST = v;
+                REC_TOKEN = self.token;
+            }
+            self.outcome
+        }
+        other!(serialize_bool(bool), serialize_i8(i8), serialize_i16(i16), serialize_i32(i32), serialize_i64(i64), serialize_u8(u8),
+               serialize_u16(u16), serialize_u64(u64), serialize_f32(f32), serialize_f64(f64), serialize_char(char),
+               serialize_str(&str), serialize_bytes(&[u8]), serialize_unit_struct(&'static str));
+        fn collect_str<T: ?Sized + fmt::Display>(self, _v: &T) -> Result<u16, E> { unsafe { REC_CALLS += 100; } Err(E(254)) }
+        fn serialize_none(self) -> Result<u16, E> { unsafe { REC_CALLS += 100; } Err(E(254)) }
+        fn serialize_some<T: ?Sized + Serialize>(self, _v: &T) -> Result<u16, E> { unsafe { REC_CALLS += 100; } Err(E(254)) }
+        fn serialize_unit(self) -> Result<u16, E> { unsafe { REC_CALLS += 100; } Err(E(254)) }
+        fn serialize_unit_variant(self, _n: &'static str, _i: u32, _v: &'static str) -> Result<u16, E> { unsafe { REC_CALLS += 100; } Err(E(254)) }
+        fn serialize_newtype_struct<T: ?Sized + Serialize>(self, _n: &'static str, _v: &T) -> Result<u16, E> { unsafe { REC_CALLS += 100; } Err(E(254)) }
+        fn serialize_newtype_variant<T: ?Sized + Serialize>(self, _n: &'static str, _i: u32, _va: &'static str, _v: &T) -> Result<u16, E> { unsafe { REC_CALLS += 100; } Err(E(254)) }
+        fn serialize_seq(self, _l: Option<usize>) -> Result<Self::SerializeSeq, E> { unsafe { REC_CALLS += 100; } Err(E(254)) }
+        fn serialize_tuple(self, _l: usize) -> Result<Self::SerializeTuple, E> { unsafe { REC_CALLS += 100; } Err(E(254)) }
+        fn serialize_tuple_struct(self, _n: &'static str, _l: usize) -> Result<Self::SerializeTupleStruct, E> { unsafe { REC_CALLS += 100; } Err(E(254)) }
+        fn serialize_tuple_variant(self, _n: &'static str, _i: u32, _v: &'static str, _l: usize) -> Result<Self::SerializeTupleVariant, E> { unsafe { REC_CALLS += 100; } Err(E(254)) }
+        fn serialize_map(self, _l: Option<usize>) -> Result<Self::SerializeMap, E> { unsafe { REC_CALLS += 100; } Err(E(254)) }
+        fn serialize_struct(self, _n: &'static str, _l: usize) -> Result<Self::SerializeStruct, E> { unsafe { REC_CALLS += 100; } Err(E(254)) }
+        fn serialize_struct_variant(self, _n: &'static str, _i: u32, _v: &'static str, _l: usize) -> Result<Self::SerializeStructVariant, E> { unsafe { REC_CALLS += 100; } Err(E(254)) }
+    }
+
+    // instrumented payload: records that ITS serialize ran, on which address
+    pub static mut SP_CALLS: usize = 0;
+    pub static mut SP_SELF: usize = 0;
+    pub struct Sp(pub u32);
+    impl Serialize for Sp {
+        fn serialize<S: Serializer>(&self, s: S) -> Result<S::Ok, S::Error> {
+            unsafe {
+                SP_CALLS += 1;
+                SP_SELF = self as *const Sp as usize;
+            }
+            s.serialize_u32(self.0)
+        }
+    }
+    fn any_outcome() -> Result<u16, E> {
+        if kani::any() { Ok(kani::any()) } else { Err(E(kani::any())) }
+    }
+
+    // @h props=C17,C04 mod=serde_h fuc=Arc::serialize note="every value, every serializer outcome (errors included)"
+    gproof! { fn c17_arc_serialize_transparent() {
+        let n = vrt::any_count();
+        let v: u32 = kani::any();
+        let a = vrt::mk(Sp(v), n);
+        let (token, outcome) = (kani::any::<u8>(), any_outcome());
+        let r = a.serialize(Rec { token, outcome });
+        // the value's own serialize ran exactly once, on &*arc, with THAT serializer; result unchanged
+        assert!(unsafe { SP_CALLS == 1 && SP_SELF == data(&a) });
+        assert!(unsafe { REC_CALLS == 1 && REC_LAST == v && REC_TOKEN == token });
+        assert!(r == outcome && cnt(&a) == n && vrt::ga(1) && vrt::gd(0));
+        core::mem::forget(a);
+    } }
+
+    // @h props=C17 mod=serde_h fuc=UniqueArc::serialize
+    gproof! { fn c17_unique_serialize_transparent() {
+        let v: u32 = kani::any();
+        let u = UniqueArc::new(Sp(v));
+        let d0 = data(crate::unique_arc::kani_h::inner_arc(&u));
+        let (token, outcome) = (kani::any::<u8>(), any_outcome());
+        let r = u.serialize(Rec { token, outcome });
+        assert!(unsafe { SP_CALLS == 1 && SP_SELF == d0 });
+        assert!(unsafe { REC_CALLS == 1 && REC_LAST == v && REC_TOKEN == token });
+        assert!(r == outcome && vrt::ga(1) && vrt::gd(0));
+        core::mem::forget(u);
+    } }
+
+    // @h props=C17 mod=serde_h fuc=Arc::serialize note="cross-check with serde's own impl for u32"
+    gproof! { fn c17_arc_serialize_u32_same_calls_as_value() {
+        let v: u32 = kani::any();
+        let a = Arc::new(v);
+        let (token, outcome) = (kani::any::<u8>(), any_outcome());
+        let r = a.serialize(Rec { token, outcome });
+        let (c1, l1, t1) = unsafe { (REC_CALLS, REC_LAST, REC_TOKEN) };
+        let r2 = v.serialize(Rec { token, outcome });
+        assert!(r == r2 && c1 == 1 && unsafe { REC_CALLS } == 2 && l1 == unsafe { REC_LAST } && t1 == token);
+        core::mem::forget(a);
+    } }
+
+    // deserializer with a symbolic outcome
+    pub struct De {
+        pub outcome: Result<u32, E>,
+    }
+    impl<'de> Deserializer<'de> for De {
+        type Error = E;
+        fn deserialize_any<V: Visitor<'de>>(self, v: V) -> Result<V::Value, E> {
+            match self.outcome {
+                Ok(x) => v.visit_u32(x),
+                Err(e) => Err(e),
+            }
+        }
+        serde::forward_to_deserialize_any! { bool i8 i16 i32 i64 i128 u8 u16 u32 u64 u128 f32 f64 char str string bytes byte_buf option unit unit_struct newtype_struct seq tuple tuple_struct map struct enum identifier ignored_any }
+    }
+    pub static mut DP_CALLS: usize = 0;
+    pub struct Dp(pub u32);
+    impl<'de> Deserialize<'de> for Dp {
+        fn deserialize<D: Deserializer<'de>>(d: D) -> Result<Dp, D::Error> {
+            unsafe { DP_CALLS += 1; }
+            u32::deserialize(d).map(Dp)
+        }
+    }
+    fn any_de() -> Result<u32, E> {
+        if kani::any() { Ok(kani::any()) } else { Err(E(kani::any())) }
+    }
+
+    // @h props=C17 mod=serde_h fuc=Arc::deserialize note="Ok: fresh sole owner of an equal value; Err: passed through unchanged, no allocation made"
+    gproof! { fn c17_arc_deserialize_fresh_owner_or_error() {
+        let keep = Arc::new(0u8);
+        let a0 = vrt::g_allocs();
+        let outcome = any_de();
+        let r: Result<Arc<Dp>, E> = Arc::<Dp>::deserialize(De { outcome });
+        assert!(unsafe { DP_CALLS } == 1);
+        match (r, outcome) {
+            (Ok(a), Ok(x)) => { assert!(a.0 == x && cnt(&a) == 1 && vrt::ga(a0 + 1) && vrt::gd(0) && base(&a) != base(&keep)); core::mem::forget(a); }
+            (Err(e), Err(f)) => { assert!(e == f && vrt::ga(a0) && vrt::gd(0) && vrt::glive(1)); }
+            _ => { assert!(false, "deserialize outcome does not follow the value's own deserializer"); }
+        }
+        kani::cover!(outcome.is_ok(), "ok path");
+        kani::cover!(outcome.is_err(), "error path");
+        core::mem::forget(keep);
+    } }
+
+    // @h props=C17,C03 mod=serde_h fuc=UniqueArc::deserialize
+    gproof! { fn c17_unique_deserialize_fresh_owner_or_error() {
+        let keep = Arc::new(0u8);
+        let a0 = vrt::g_allocs();
+        let outcome = any_de();
+        let r: Result<UniqueArc<Dp>, E> = UniqueArc::<Dp>::deserialize(De { outcome });
+        assert!(unsafe { DP_CALLS } == 1);
+        match (r, outcome) {
+            (Ok(u), Ok(x)) => { assert!(u.0 == x && cnt(crate::unique_arc::kani_h::inner_arc(&u)) == 1 && vrt::ga(a0 + 1) && vrt::gd(0)); core::mem::forget(u); }
+            (Err(e), Err(f)) => { assert!(e == f && vrt::ga(a0) && vrt::gd(0) && vrt::glive(1)); }
+            _ => { assert!(false, "deserialize outcome does not follow the value's own deserializer"); }
+        }
+        core::mem::forget(keep);
+    } }
+}
+
+// ------------------------------------------------------------------------------------------
+// C02 (and the schedule halves of C03/C08/C09/C16): ordering discipline on the ghost event trace.
+// These harnesses only make sense in the shim build (build=shim): the two `use` lines that name
+// core::sync::atomic in arc.rs / unique_arc.rs point at crate::vrt::atomic there.
+// NO schedule is explored; see DESIGN §5 C02 for what the discipline buys under lemma L.
+// ------------------------------------------------------------------------------------------
+use crate::vrt::atomic as tr;
+
+macro_rules! od_release {
+    ($name:ident, $mk:expr, $pd:expr) => {
+        gproof! { #[kani::unwind(12)] fn $name() {
+            let n = any_count();
+            let h = ($mk)(n);
+            tr::reset();
+            drop(h);
+            assert!(tr::od_dec_shape(), "OD-UNRECOGNISED release protocol shape");
+            assert!(tr::od_dec_orders(n, $pd), "OD-dec: release-class RMW decrement; acquire before destruction; nothing after a non-final release");
+            kani::cover!(n == 1, "last owner");
+            kani::cover!(n > 1, "not last owner");
+        } }
+    };
+}
+// @h props=C02 build=shim fuc=Arc::drop,Arc::drop_inner,Arc::drop_slow
+od_release!(c02_od_release__arc, |n| mk(Tr8::new(), n), 1);
+// @h props=C02 build=shim fuc=Arc::drop,Arc::drop_inner,Arc::drop_slow
+od_release!(c02_od_release__arc_slice, |n| { let a = mk_slice_u32(); set_cnt(&a, n); a }, 0);
+// @h props=C02 build=shim fuc=Arc::drop,Arc::drop_inner,Arc::drop_slow
+od_release!(c02_od_release__arc_dyn, |n| { let a = mk_dyn(Tr8::new()); set_cnt(&a, n); a }, 1);
+// @h props=C02 build=shim fuc=OffsetArc::drop
+od_release!(c02_od_release__offset, |n| Arc::into_raw_offset(mk(Tr8::new(), n)), 1);
+// @h props=C02 build=shim fuc=ThinArc::drop
+od_release!(c02_od_release__thin, |n| crate::thin_arc::kani_h::mk_thin_u32(n).0, 0);
+// @h props=C02 build=shim fuc=ArcUnion::drop
+od_release!(c02_od_release__union_first, |n| crate::ArcUnion::<Tr8, Tr16>::from_first(mk(Tr8::new(), n)), 1);
+// @h props=C02 build=shim fuc=ArcUnion::drop
+od_release!(c02_od_release__union_second, |n| crate::ArcUnion::<Tr8, Tr16>::from_second(mk(Tr16::new(), n)), 1);
+// @h props=C02 build=shim fuc=UniqueArc::drop
+gproof! { #[kani::unwind(12)] fn c02_od_release__unique() {
+    let u = UniqueArc::new(Tr8::new());
+    tr::reset();
+    drop(u);
+    assert!(tr::od_dec_shape(), "OD-UNRECOGNISED release protocol shape");
+    assert!(tr::od_dec_orders(1, 1), "OD-dec: release-class RMW decrement; acquire before destruction");
+} }
+
+macro_rules! od_clone {
+    ($name:ident, $mk:expr, $clone:expr) => {
+        gproof! { #[kani::unwind(12)] fn $name() {
+            let n = any_count();
+            let h = ($mk)(n);
+            tr::reset();
+            let c = ($clone)(&h);
+            assert!(tr::od_inc(n), "OD-inc: exactly one atomic RMW increment, no store, nothing destroyed");
+            core::mem::forget(h);
+            core::mem::forget(c);
+        } }
+    };
+}
+// @h props=C02,C16 build=shim fuc=Arc::clone
+od_clone!(c02_od_clone__arc, |n| mk(Tr8::new(), n), |h: &Arc<Tr8>| h.clone());
+// @h props=C02 build=shim fuc=OffsetArc::clone
+od_clone!(c02_od_clone__offset, |n| Arc::into_raw_offset(mk(Tr8::new(), n)), |h: &OffsetArc<Tr8>| h.clone());
+// @h props=C02 build=shim fuc=OffsetArc::clone_arc
+od_clone!(c02_od_clone__offset_clone_arc, |n| Arc::into_raw_offset(mk(Tr8::new(), n)), |h: &OffsetArc<Tr8>| h.clone_arc());
+// @h props=C02 build=shim fuc=ArcBorrow::clone_arc
+od_clone!(c02_od_clone__borrow_clone_arc, |n| mk(Tr8::new(), n), |h: &Arc<Tr8>| h.borrow_arc().clone_arc());
+// @h props=C02 build=shim fuc=ThinArc::clone
+od_clone!(c02_od_clone__thin, |n| crate::thin_arc::kani_h::mk_thin_u32(n).0, |h: &crate::ThinArc<u16, u32>| h.clone());
+// @h props=C02 build=shim fuc=ArcUnion::clone
+od_clone!(c02_od_clone__union_second, |n| crate::ArcUnion::<Tr8, Tr16>::from_second(mk(Tr16::new(), n)), |h: &crate::ArcUnion<Tr8, Tr16>| h.clone());
+// @h props=C02 build=shim tier=thorough fuc=ArcUnion::clone
+od_clone!(c02_od_clone__union_first, |n| crate::ArcUnion::<Tr8, Tr16>::from_first(mk(Tr8::new(), n)), |h: &crate::ArcUnion<Tr8, Tr16>| h.clone());
+
+// @h props=C02,C04 build=shim fuc=Arc::deref,Arc::count,Arc::strong_count,Arc::is_unique,Arc::as_ptr,Arc::eq note="reads never modify the count"
+gproof! { #[kani::unwind(12)] fn c02_od_reads_do_not_modify() {
+    let n = any_count();
+    let a = mk(S9a8::any(), n);
+    let b = Arc::new(S9a8::any());
+    tr::reset();
+    let _ = (*a).0[0];
+    let _ = Arc::count(&a);
+    let _ = Arc::strong_count(&a);
+    let _ = a.is_unique();
+    let _ = Arc::as_ptr(&a);
+    let _ = a == b;
+    let _ = a.borrow_arc();
+    assert!(tr::od_read_only(), "OD-read: no modification of the count");
+    core::mem::forget(a);
+    core::mem::forget(b);
+} }
+
+// @h props=C03,C02 build=shim fuc=Arc::get_mut,Arc::is_unique,Arc::count note="a grant is preceded by an acquire-class load of the count that saw 1"
+gproof! { #[kani::unwind(12)] fn c03_od_get_mut_grant_is_acquire() {
+    let n = any_count();
+    let mut a = mk(S9a8::any(), n);
+    tr::reset();
+    let granted = Arc::get_mut(&mut a).is_some();
+    assert!(tr::od_no_modification());
+    if granted { assert!(tr::od_acquire_saw_one(), "OD-unique: grant without an acquire-class load that saw 1"); }
+    core::mem::forget(a);
+} }
+
+// @h props=C03,C09,C02 build=shim fuc=Arc::try_unique,Arc::is_unique
+gproof! { #[kani::unwind(12)] fn c03_od_try_unique_grant_is_acquire() {
+    let n = any_count();
+    let a = mk(S9a8::any(), n);
+    tr::reset();
+    let r = Arc::try_unique(a);
+    assert!(tr::od_no_modification());
+    if r.is_ok() { assert!(tr::od_acquire_saw_one(), "OD-unique: grant without an acquire-class load that saw 1"); }
+    core::mem::forget(r);
+} }
+
+// @h props=C03,C02 build=shim fuc=Arc::get_unique,Arc::try_as_unique
+gproof! { #[kani::unwind(12)] fn c03_od_get_unique_grant_is_acquire() {
+    let n = any_count();
+    let mut a = mk(S9a8::any(), n);
+    tr::reset();
+    let granted = Arc::get_unique(&mut a).is_some();
+    assert!(tr::od_no_modification());
+    if granted { assert!(tr::od_acquire_saw_one(), "OD-unique: grant without an acquire-class load that saw 1"); }
+    core::mem::forget(a);
+} }
+
+// @h props=C08,C03,C02 build=shim fuc=Arc::make_mut note="in-place branch needs the acquire; the copying branch releases the old handle with OD-dec"
+gproof! { #[kani::unwind(12)] fn c08_od_make_mut_orders() {
+    let n = any_count();
+    let mut a = mk(Tr8::new(), n);
+    tr::reset();
+    let _ = Arc::make_mut(&mut a);
+    if n == 1 {
+        assert!(tr::od_no_modification() && tr::od_acquire_saw_one(), "OD-unique: in-place make_mut without an acquire-class load that saw 1");
+    } else {
+        // the displaced handle is released like any other: one release-class decrement that saw n, nothing after
+        let mut i = 0;
+        let mut subs = 0;
+        while i < tr::tlen() { let e = tr::ev(i); if e.k == tr::K::Sub { subs += 1; assert!(e.seen == n && tr::release_class(e.ord)); } i += 1; }
+        assert!(subs == 1);
+    }
+    core::mem::forget(a);
+} }
+
+// @h props=C09,C02 build=shim fuc=Arc::try_unwrap,UniqueArc::into_inner note="moving the value out is preceded by an acquire-class load that saw 1; exactly one dealloc after it"
+gproof! { #[kani::unwind(12)] fn c09_od_try_unwrap_orders() {
+    let n = any_count();
+    let a = mk(Tr8::new(), n);
+    tr::reset();
+    let r = Arc::try_unwrap(a);
+    assert!(tr::od_no_modification());
+    if r.is_ok() {
+        assert!(tr::od_acquire_saw_one(), "OD-unique: value moved out without an acquire-class load that saw 1");
+        let mut i = 0; let mut acq = false; let mut de = 0;
+        while i < tr::tlen() { let e = tr::ev(i); if e.k == tr::K::Load && tr::acquire_class(e.ord) && e.seen == 1 { acq = true; } if e.k == tr::K::Dealloc { de += 1; assert!(acq); } i += 1; }
+        assert!(de == 1);
+    } else {
+        assert!(tr::od_read_only());
+    }
+    core::mem::forget(r);
+} }
+
+// @h props=C16,C02 build=shim kind=panic site="VRT abort reached" fuc=Arc::clone note="the overflow test is on the OLD value of a single RMW: the count cannot have wrapped before the test (std::process::abort stubbed by a trace-checking stand-in in this harness only)"
+#[kani::proof]
+#[kani::should_panic]
+#[kani::unwind(12)]
+#[kani::stub(std::process::abort, crate::vrt::ghost_abort)]
+#[kani::stub(alloc::alloc::alloc, crate::vrt::ghost_alloc)]
+#[kani::stub(alloc::alloc::dealloc, crate::vrt::ghost_dealloc)]
+#[kani::stub(alloc::alloc::dealloc_nonnull, crate::vrt::ghost_dealloc_nn)]
+fn c16_od_clone_overflow_single_rmw() {
+    let n: usize = kani::any();
+    kani::assume(n > isize::MAX as usize);
+    let a = mk(S1::any(), n);
+    tr::reset();
+    unsafe { vrt::OD_N = n; }
+    let b = a.clone();
+    kani::cover!(true, "RETURNED");
+    core::mem::forget(a);
+    core::mem::forget(b);
+}
+
+// ------------------------------------------------------------------------------------------
+// C11: handle widths and the null niche
+// ------------------------------------------------------------------------------------------
+// @h props=C11 fuc=Arc,OffsetArc,ThinArc,ArcBorrow,UniqueArc,ArcUnion note="one pointer wide (two for slice / str / trait-object Arcs), null niche available to Option"
+gproof! { fn c11_handle_widths_and_niche() {
+    use core::mem::size_of;
+    let w = size_of::<usize>();
+    assert!(size_of::<Arc<S9a8>>() == w && size_of::<Option<Arc<S9a8>>>() == w);
+    assert!(size_of::<Arc<Z>>() == w && size_of::<Option<Arc<Z>>>() == w);
+    assert!(size_of::<OffsetArc<S9a8>>() == w && size_of::<Option<OffsetArc<S9a8>>>() == w);
+    assert!(size_of::<crate::ThinArc<u16, u32>>() == w && size_of::<Option<crate::ThinArc<u16, u32>>>() == w);
+    assert!(size_of::<ArcBorrow<'static, S9a8>>() == w && size_of::<Option<ArcBorrow<'static, S9a8>>>() == w);
+    assert!(size_of::<UniqueArc<S9a8>>() == w && size_of::<Option<UniqueArc<S9a8>>>() == w);
+    assert!(size_of::<crate::ArcUnion<S1, S9a8>>() == w && size_of::<Option<crate::ArcUnion<S1, S9a8>>>() == w);
+    assert!(size_of::<Arc<[u32]>>() == 2 * w && size_of::<Option<Arc<[u32]>>>() == 2 * w);
+    assert!(size_of::<Arc<str>>() == 2 * w && size_of::<Option<Arc<str>>>() == 2 * w);
+    assert!(size_of::<Arc<dyn Probe>>() == 2 * w && size_of::<Option<Arc<dyn Probe>>>() == 2 * w);
+    assert!(size_of::<UniqueArc<[u32]>>() == 2 * w && size_of::<ArcBorrow<'static, [u32]>>() == 2 * w);
+    let keep = Arc::new(0u8);
+    core::mem::forget(keep);
+} }
+
+// ------------------------------------------------------------------------------------------
+// C16 in the no_std configuration: crate::abort is the double-panic routine in lib.rs
+// ------------------------------------------------------------------------------------------
+// @h props=C16 features=none kind=panic site="src/lib.rs.* in abort" fuc=Arc::clone,crate::abort note="no_std build: the refusal site is the panic inside crate::abort"
+gpanic! { fn c16_nostd_arc_clone_overflow_reaches_abort() {
+    let n: usize = kani::any();
+    kani::assume(n > isize::MAX as usize);
+    let a = mk(S1::any(), n);
+    let b = a.clone();
+    core::mem::forget(a);
+    core::mem::forget(b);
+} }
+
+// @h props=C16 features=none fuc=Arc::clone note="no_std build: clones below the limit add exactly one"
+gproof! { fn c16_nostd_arc_clone_below_limit_adds_one() {
+    let n = any_count();
+    let a = mk(S1::any(), n);
+    let b = a.clone();
+    assert!(cnt(&a) == n + 1);
+    core::mem::forget(a);
+    core::mem::forget(b);
+} }
+
+// ------------------------------------------------------------------------------------------
+// unsize feature: CoerciblePtr keeps block and count (C01, C05 release after unsizing)
+// ------------------------------------------------------------------------------------------
+#[cfg(feature = "unsize")]
+pub(crate) mod uns_h {
+    use crate::arc::Arc;
+    use crate::unique_arc::UniqueArc;
+    use crate::vrt;
+    use crate::vrt::{any_count, base, cnt, cw, data, mk, rd, set_cnt, Probe, Tr8};
+    use unsize::{CoerceUnsize, Coercion};
+
+    // @h props=C01,C05,C11 mod=uns_h features=unsize,arc-swap fuc=Arc::replace_ptr,Arc::as_sized_ptr note="Arc<[u8;4]> -> Arc<[u8]>"
+    gproof! { fn c01_unsize_arc_array_to_slice() {
+        let n = any_count();
+        let x = mk([1u8, 2, 3, 4], n);
+        let (b0, d0) = (base(&x), data(&x));
+        let y: Arc<[u8]> = x.unsize(Coercion::to_slice());
+        assert!(base(&y) == b0 && data(&y) == d0 && cnt(&y) == n && y.len() == 4 && y[3] == 4);
+        assert!(vrt::valid(&y) && vrt::ga(1) && vrt::gd(0));
+        if n == 1 { drop(y); assert!(vrt::gd(1) && vrt::glive(0)); } else { core::mem::forget(y); }
+    } }
+
+    // @h props=C01,C05 mod=uns_h features=unsize,arc-swap fuc=Arc::replace_ptr note="Arc<Tr8> -> Arc<dyn Probe>: destructor and layout still right after unsizing"
+    gproof! { fn c01_unsize_arc_to_dyn_then_release() {
+        let n = any_count();
+        let x = mk(Tr8::new(), n);
+        let (b0, id, c0) = (base(&x), x.id, cw(&x));
+        let y: Arc<dyn Probe> = x.unsize(unsafe { Coercion::new({ fn coerce<'lt>(p: *const Tr8) -> *const (dyn Probe + 'lt) { p } coerce }) });
+        assert!(base(&y) == b0 && cnt(&y) == n && vrt::valid(&y));
+        drop(y);
+        if n == 1 { assert!(vrt::drops() == 1 && vrt::dropped(id) && vrt::gd(1)); } else { assert!(vrt::drops() == 0 && rd(c0) == n - 1 && vrt::gd(0)); }
+    } }
+
+    // @h props=C01,C03 mod=uns_h features=unsize,arc-swap fuc=UniqueArc::replace_ptr
+    gproof! { fn c01_unsize_unique_array_to_slice() {
+        let u = UniqueArc::new([7u8, 8, 9]);
+        let b0 = base(crate::unique_arc::kani_h::inner_arc(&u));
+        let v: UniqueArc<[u8]> = u.unsize(Coercion::to_slice());
+        let a = crate::unique_arc::kani_h::inner_arc(&v);
+        assert!(base(a) == b0 && cnt(a) == 1 && v.len() == 3 && v[2] == 9);
+        drop(v);
+        assert!(vrt::gd(1) && vrt::glive(0));
+    } }
+
+    // @h props=C01,C04 mod=uns_h features=unsize,arc-swap fuc=ArcBorrow::replace_ptr
+    gproof! { fn c01_unsize_borrow_keeps_count() {
+        let n = any_count();
+        let x = mk([1u8, 2, 3, 4], n);
+        let b = x.borrow_arc();
+        let s: crate::ArcBorrow<[u8]> = b.unsize(Coercion::to_slice());
+        assert!((s.0.as_ptr() as *const [u8]).len() == 4 && cnt(&x) == n && vrt::addr(s.0.as_ptr() as *const [u8]) == data(&x));
+        core::mem::forget(x);
+    } }
+}
